@@ -81,6 +81,7 @@ func runC19CLI(base *sbx.Box, c *c19cliCase) error {
 		objID = strings.ReplaceAll(strings.TrimPrefix(c.File, "objects/"), "/", "")
 	}
 	var data []byte
+	limit := false
 	switch {
 	case c.Kind == "swap":
 		other, err := os.ReadFile(filepath.Join(b.GoitDir(), filepath.FromSlash(c.SwapWith)))
@@ -88,6 +89,16 @@ func runC19CLI(base *sbx.Box, c *c19cliCase) error {
 			return fmt.Errorf("REPLAY-INFRA: %v", err)
 		}
 		data = other
+	case c.Kind == "index-path":
+		// a staging-area file that is well formed except that entry number Pos names SwapWith
+		// (an absolute path, a path that leaves the working tree): arbitrary bytes of the file,
+		// which the commands must not follow to a device that never ends
+		d, err := indexWithPath(orig, c.Pos, c.SwapWith)
+		if err != nil {
+			return fmt.Errorf("REPLAY-INFRA: %v", err)
+		}
+		data = d
+		limit = true
 	case strings.HasPrefix(c.Kind, "content-"):
 		o, err := gitfmt.DecodeObjectBytes(orig)
 		if err != nil {
@@ -124,7 +135,12 @@ func runC19CLI(base *sbx.Box, c *c19cliCase) error {
 	cmds = append(cmds, [][]string{{"add", "a.txt"}, {"commit", "-m", "after damage"}, {"restore", "--staged", "dir"}, {"reset", "--soft", "HEAD@{0}"}, {"reset", "--hard", "HEAD@{1}"},
 		{"branch", "nb"}, {"switch", "main"}, {"restore", "a.txt"}, {"status"}}...)
 	for _, cmd := range cmds {
-		r := b.Run(cmd...)
+		var r sbx.Result
+		if limit {
+			r = b.RunLimited(4<<20, cmd...) // 4 GiB of address space: "allocates without bound" ends as a reported crash, not as a dead machine
+		} else {
+			r = b.Run(cmd...)
+		}
 		if r.Timeout {
 			return fmt.Errorf("%v hangs on a repository whose %s was damaged (%s at %d)", cmd, c.File, c.Kind, c.Pos)
 		}
@@ -150,6 +166,34 @@ func runC19CLI(base *sbx.Box, c *c19cliCase) error {
 		}
 	}
 	return nil
+}
+
+// indexWithPath rewrites the path of entry number k of a Goit index (12 bytes of header,
+// then per entry 20 bytes of id, a 16-bit length and the path).
+func indexWithPath(orig []byte, k int, path string) ([]byte, error) {
+	if len(orig) < 12 {
+		return nil, fmt.Errorf("index too short")
+	}
+	out := append([]byte{}, orig[:12]...)
+	pos := 12
+	for i := 0; pos < len(orig); i++ {
+		if pos+22 > len(orig) {
+			return nil, fmt.Errorf("index entry %d cut short", i)
+		}
+		n := int(orig[pos+20])<<8 | int(orig[pos+21])
+		if pos+22+n > len(orig) {
+			return nil, fmt.Errorf("index entry %d cut short", i)
+		}
+		name := orig[pos+22 : pos+22+n]
+		if i == k {
+			name = []byte(path)
+		}
+		out = append(out, orig[pos:pos+20]...)
+		out = append(out, byte(len(name)>>8), byte(len(name)))
+		out = append(out, name...)
+		pos += 22 + n
+	}
+	return out, nil
 }
 
 var c19Base *sbx.Box
@@ -260,6 +304,14 @@ func TestC19CLI(t *testing.T) {
 		}
 		if stats.WantSample() && n%211 == 0 {
 			stats.Sample(map[string]interface{}{"file": classOf(base, c.File), "mutation": c.Kind, "position": c.Pos, "byte": c.Byte})
+		}
+	}
+	// staging-area files whose entry k names a path outside the working tree
+	up := strings.Repeat("../", 24) // deeper than any scratch directory
+	for k := 0; k < 3; k++ {
+		for _, hostile := range []string{"/dev/zero", up + "dev/zero", "dir/../" + up + "dev/zero", "/dev/null", up + "dev/null", "/", "..", "../x"} {
+			stats.Label("index:entry names a path outside the working tree")
+			try(&c19cliCase{File: "index", Kind: "index-path", Pos: k, SwapWith: hostile})
 		}
 	}
 	for _, f := range files {
